@@ -148,7 +148,7 @@ def resolved (inp : Input) : Res (World × List Warning) :=
     | .panic p => .panic p
     | .ok (nss, ws) =>
       let w' : World := { w with nss := nss }
-      match Foreign.resolveAll inp.oracle inp.cfg.default 1000000 paths w' with
+      match Foreign.resolveAll inp.oracle ⟨inp.cfg.default, inp.cfg.inherits⟩ 1000000 paths w' with
       | .err e => .err e
       | .panic p => .panic p
       | .ok w'' => .ok (w'', ws)
